@@ -91,6 +91,12 @@ void hazard_eras<Traits>::guard_ptr<T, MarkedPtr>::acquire(const concurrent_ptr<
     // we have to use acquire here to ensure that the subsequent era_clock.load
     // sees a value >= p.construction_era
     auto value = p.load(order);
+    if (value.get() == nullptr) {
+      // nothing to protect - do not occupy a hazard era (keep the mark of a marked null pointer)
+      reset();
+      this->ptr = value;
+      return;
+    }
 
     auto era = era_clock.load(std::memory_order_relaxed);
     if (era == prev_era) {
@@ -132,9 +138,14 @@ bool hazard_eras<Traits>::guard_ptr<T, MarkedPtr>::acquire_if_equal(const concur
   // we have to use acquire here to ensure that the subsequent era_clock.load
   // sees a value >= p.construction_era
   auto p1 = p.load(order);
-  if (p1 == nullptr || p1 != expected) {
+  if (p1.get() == nullptr || p1 != expected) {
+    // a (marked) null pointer needs no protection - do not occupy a hazard era for it
     reset();
-    return p1 == expected;
+    if (p1 == expected) {
+      this->ptr = p1;
+      return true;
+    }
+    return false;
   }
 
   const auto era = era_clock.load(std::memory_order_relaxed);
